@@ -134,6 +134,10 @@ def printer_panic(ctx):
     return printer_slice(ctx, "panic")
 
 
+def hook_silent(ctx):
+    return printer_slice(ctx, "hook", hook="silent")
+
+
 def printer_control_f3(ctx):
     """vacuity control: on the specification of the code BEFORE the repair of F3 (nested printers dropping the
     override) TLC must find the C06 invariant violated"""
@@ -168,6 +172,7 @@ def c02(ctx):
     # the whole fmt-compatible universe of C04 (Go values of every kind) plus redact-specific values, built from two secrets
     ctx.harness(["secrets-drive", "-prop", "C02", "-pairs", str(tier(ctx, 4000, 200000))])
     buffer_model(ctx, deep=False)      # a result that changes after it was returned is not independent of later data
+    writer_model(ctx)                  # incl. the probes of every io writing interface a builder satisfies
 
 
 def mode_traces(ctx):
@@ -195,7 +200,7 @@ def registry_model(ctx):
     ctx.tlc_replay("MCRegistry", "Registry.cfg", ["registry-replay", "-prop", ctx.prop], workers=1)
     # a second family of types: built-in string / int, a named []byte and a named [2]byte (fmt's byte-string paths)
     ctx.tlc_replay("MCRegistry", "Registry.cfg", ["registry-replay", "-prop", ctx.prop], workers=1,
-                   consts=dict(Types='{"bstring", "bint", "bytes", "barray"}'))
+                   consts=dict(Types='{"bstring", "bint", "bytes", "barray", "u8elem"}'))
 
 
 def c05(ctx):
@@ -208,6 +213,7 @@ def c05(ctx):
 
 def c06(ctx):
     printer_slice(ctx, "wrap")
+    printer_slice(ctx, tier(ctx, "qcls", "cls"))   # wrappers nested in containers with no wrapper around them
     printer_slice(ctx, "wrap", hook="plain")     # "errors handled by a registered error hook": bypassed under Unsafe()
     printer_rnd(ctx, n=tier(ctx, 800, 8000))
     printer_rnd_hook(ctx)
@@ -242,6 +248,7 @@ def c17(ctx):
     printer_slice(ctx, "hook", hook="plain")
     printer_slice(ctx, "hook", hook="none")
     printer_slice(ctx, "hook", hook="panic")
+    printer_slice(ctx, "hook", hook="silent")    # a hook that prints nothing: the operand is still rendered solely by it
     printer_rnd_hook(ctx)
     if ctx.tier == "thorough":
         printer_slice(ctx, "hook", hook="print")
@@ -323,6 +330,11 @@ def pool_histories_from_tlc(ctx, num, depth):
     return path
 
 
+def pool_stress_race(ctx):
+    trace2 = ctx.work + "/pools.ndjson"
+    ctx.harness_race(["pool-stress", "-g", "16", "-secs", str(tier(ctx, 3, 60)), "-trace", trace2, "-maxev", str(tier(ctx, 30000, 120000))])
+
+
 def pool_history_pairs(ctx):
     """every (prior call, probe) pair of call kinds, probes compared with a fresh process"""
     ctx.harness(["pool-history", "-depth", str(tier(ctx, 1, 2))])
@@ -395,6 +407,7 @@ def c01(ctx):
     printer_slice(ctx, tier(ctx, "qcompose", "compose"), module="MCCompose", cfg="Compose.cfg")
     printer_rnd(ctx)
     printer_panic(ctx)       # F10: panics that cross a nested printer
+    builder_histories(ctx)   # the builder observed (accessors), reset and taken at every point: still a redactable
     if ctx.tier == "thorough":
         printer_slice(ctx, "smoke")
         printer_slice(ctx, "dir")
@@ -411,6 +424,7 @@ def c03(ctx):
     printer_slice(ctx, tier(ctx, "qbytes", "bytes"))
     printer_slice(ctx, tier(ctx, "qcompose", "compose"), module="MCCompose", cfg="Compose.cfg")
     printer_rnd(ctx)
+    builder_histories(ctx)   # the builder observed (accessors), reset and taken at every point: no envelope spans a line
     if ctx.tier == "thorough":
         printer_slice(ctx, "smoke")
     long_payloads(ctx)
@@ -432,9 +446,17 @@ def c09(ctx):
     long_payloads(ctx)
 
 
+def registry_redactables(ctx):
+    """MCRegistry with the redactable types themselves among the registered ones (and a named byte-slice type): what a
+    redactable holds inside its envelopes stays there at every position, whatever is registered"""
+    ctx.tlc_replay("MCRegistry", "Registry.cfg", ["registry-replay", "-prop", ctx.prop], workers=1,
+                   consts=dict(Types='{"rstr", "rbytes", "bytes"}'))
+
+
 def c08(ctx):
     printer_slice(ctx, tier(ctx, "qcompose", "compose"), module="MCCompose", cfg="Compose.cfg")
     printer_rnd(ctx)
+    registry_redactables(ctx)
 
 
 def deep_nesting(ctx):
